@@ -760,10 +760,10 @@ func c15LinkClass(m *c15Model, dir, target string) string {
 // Generator ------------------------------------------------------------------
 
 var (
-	c15NormalDirs = []string{"a", "b", "pkg", "cmd", "a-b", "a.b", "a0", "B", "internal"}
+	c15NormalDirs = []string{"a", "b", "pkg", "cmd", "a-b", "a.b", "a0", "B", "internal", "api[v2]", "w?"}
 	c15NearDirs   = []string{"vendor2", "xvendor", "Vendor", "testdata2", "mytestdata", "x_", "x.", "v.go", "x.go", "a.go"}
 	c15ExclDirs   = []string{"vendor", "testdata", ".git", ".x", "_x", "_", "vendor", "testdata", "_old.go", ".c.go", "_.go"}
-	c15GoFiles    = []string{"a.go", "b.go", "main.go", "z.go", "a_test.go", "x_test.go", ".h.go", "_u.go", ".go", "a-b.go", "a0.go", "B.go", "vendor.go", "testdata.go"}
+	c15GoFiles    = []string{"a.go", "b.go", "main.go", "z.go", "a_test.go", "x_test.go", ".h.go", "_u.go", ".go", "a-b.go", "a0.go", "B.go", "vendor.go", "testdata.go", "shard[1].go", "q?.go", "st*r.go", "[a].go"}
 	c15OtherFiles = []string{"n.txt", "z.go.bak", "go", "xgo", "a.GO", "a.go~", "Makefile", "a.goo", "a.go.txt", "go.mod", "go.mod", "go.sum", "go.work", ".gitignore", "BUILD.bazel"}
 	c15LinkNames  = []string{"l.go", "lk.go", "ln", "ldir", "l_test.go", "vendor", ".l.go"}
 )
